@@ -8,7 +8,7 @@
      - filter_is_projection (Masks/GetProofs.v, C06): that filter is the reference projection on
        conformant messages and masks without empty segments,
      - trace_ok_ext (TraceExt.v): trace_ok only looks at the projection there. *)
-From SC Require Import Base.Prelude Msg.Msg Msg.MsgProofs Msg.Schema Msg.Path Masks.Get Masks.GetProofs
+From SC Require Import Base.Prelude Msg.Msg Msg.MsgProofs Msg.Schema Msg.Path Msg.FmUtils Masks.Get Masks.GetProofs Masks.Update Traits.FanSpeed
   Resource.Impl Resource.Pull Servers.Kinds Servers.GenericServer Servers.GenericServerProofs
   Servers.Trace Servers.TraceOf Servers.TraceProofs Servers.TraceExt Servers.Stack Servers.StackProofs
   Servers.C14Judge Gen.Servers.
@@ -104,21 +104,73 @@ Proof.
   unfold rmask in *. rewrite E. reflexivity.
 Qed.
 
-Theorem judge_sound : forall server init evs streams parts,
-  C14_guard (KTrace server init evs streams parts) = true ->
-  trace_wf server init evs = true ->
-  agrees (KTrace server init evs streams parts) = true -> C14_ok (KTrace server init evs streams parts) = true.
+(* ---- the hand rules answer with values or gRPC statuses (the interface [rule] of GenericServer that
+   model_satisfies_property asks for) ---- *)
+Lemma validate_update_codes sch ty um wm rm :
+  let c := validate_update sch ty um wm rm in c = 0 \/ c = 3 \/ c = 13.
 Proof.
-  intros server init evs streams parts Hg Hwf Ha.
-  unfold agrees, agrees_gen, C14_ok, trace_wf in *. destruct (info_of server) as [info|]; [|discriminate].
+  unfold validate_update, code_ok, code_invalid_argument, code_internal.
+  destruct um as [ps|].
+  - destruct (fm_valid sch ty ps); cbn [negb]; [|auto].
+    destruct wm as [ws|].
+    + destruct (forallb _ ps); [|auto]. destruct (valid_or sch ty rm); auto.
+    + destruct (valid_or sch ty rm); auto.
+  - destruct (valid_or sch ty rm); auto.
+Qed.
+
+Lemma plain_write_status ty resw um base written c :
+  plain_write ty resw um base written = Some (inr c) -> is_status c = true.
+Proof.
+  unfold plain_write, write. set (wm := effective_writable false resw None).
+  set (b := match base with Some b => b | None => VM [] end).
+  pose proof (validate_update_codes servers_schema ty um wm None) as Hc. cbv zeta in Hc.
+  destruct (negb (validate_update servers_schema ty um wm None =? code_ok)) eqn:En.
+  - intros H. inversion H; subst c. destruct Hc as [Hc|[Hc|Hc]]; rewrite Hc in *; try reflexivity.
+    discriminate En.
+  - destruct (merge servers_schema ty um wm None b written); intros H; discriminate H.
+Qed.
+
+Lemma hand_rule_status ty h base q c : hand_rule ty h base q = Some (inr c) -> is_status c = true.
+Proof.
+  unfold hand_rule. destruct (u_res q) as [res|]; [|discriminate].
+  destruct (has_negzero res); [discriminate|].
+  destruct h as [resw|flag resw| |].
+  - apply plain_write_status.
+  - destruct (populated flag (u_req q)); [discriminate|apply plain_write_status].
+  - apply plain_write_status.
+  - destruct (populated "relative" (u_req q)); [discriminate|].
+    destruct base as [b|]; [|discriminate].
+    destruct (fan_of b) as [old|]; [|discriminate]. destruct (fan_of res) as [req|]; [|discriminate].
+    destruct (fst (fan_update fan_presets old req false)) as [f|c'|]; try discriminate.
+    destruct (c' =? 3)%Z; [|discriminate]. intros H. inversion H. reflexivity.
+Qed.
+
+Lemma hybrid_status server ty reqs evs :
+  forallb (fun e : tev value rmask => match e with TUpdate _ (inr c) => is_status c | _ => true end) evs = true ->
+  forall (b : option value) (q : nat) c, hybrid_rule server ty reqs (update_resps evs) b q = inr c -> is_status c = true.
+Proof.
+  intros H b q c. unfold hybrid_rule.
+  destruct (alookup server hand_table) as [h|]; [|apply (oracle_status evs H)].
+  destruct (nth_error reqs q) as [rq|]; [|apply (oracle_status evs H)].
+  destruct (hand_rule ty h b rq) as [[v|c']|] eqn:Eh; [discriminate| |apply (oracle_status evs H)].
+  intros E. inversion E; subst c'. apply (hand_rule_status _ _ _ _ _ Eh).
+Qed.
+
+Theorem judge_sound_core : forall server init evs streams eqt reqs,
+  guard_core evs = true ->
+  trace_wf server init evs = true ->
+  agrees_core variant_of server init evs streams eqt reqs = true -> ok_core server init evs streams eqt = true.
+Proof.
+  intros server init evs streams eqt reqs Hg Hwf Ha.
+  unfold agrees_core, ok_core, trace_wf in *. destruct (info_of server) as [info|]; [|discriminate].
   apply andb_prop in Hwf. destruct Hwf as [Hci Hce].
   unfold model_run, variant_of in Ha. cbn [get_filter_of live_of] in Ha.
   set (f := model_filter (sv_type info)) in *.
-  set (eqv := equiv_of (sv_eq info)) in *.
-  set (rule := oracle_rule (update_resps evs)) in *.
+  set (eqv := equiv_of (sv_eq info) eqt) in *.
+  set (rule := hybrid_rule server (sv_type info) reqs (update_resps evs)) in *.
   (* the model's own trace satisfies the predicate, for the model's own filter *)
   assert (Hstat : forall (b : option value) (q : nat) c, rule b q = inr c -> is_status c = true).
-  { apply oracle_status. rewrite forallb_forall in *. intros e He. specialize (Hce e He).
+  { apply hybrid_status. rewrite forallb_forall in *. intros e He. specialize (Hce e He).
     destruct e as [| n [v|c] | |]; auto. }
   pose proof (@model_satisfies_property value rmask nat value_eqb (VM []) f eqv clock rule dev_names
                 value_eqb_refl value_eqb_eq Hstat (Some init) (reqs_of 0 evs)) as Hm.
@@ -138,8 +190,27 @@ Proof.
   - intros k v Hk Hv. apply model_filter_is_ref; assumption.
   - simpl. exact Hci.
   - cbn [t_evs]. apply Forall_forall. intros e He.
-    unfold C14_guard in Hg. rewrite forallb_forall in Hg, Hce. specialize (Hg e He). specialize (Hce e He).
+    unfold guard_core in Hg. rewrite forallb_forall in Hg, Hce. specialize (Hg e He). specialize (Hce e He).
     destruct e as [n k r|n [v|c]|n k uo|i]; simpl; auto.
     + destruct k; [exact Hg|exact I].
     + destruct k; [exact Hg|exact I].
+Qed.
+
+(* for every case, with or without oracle table and requests *)
+Theorem judge_sound_all : forall c,
+  C14_guard c = true -> trace_wf (c_server c) (c_init c) (c_evs c) = true -> agrees c = true -> C14_ok c = true.
+Proof. intros c Hg Hwf Ha. exact (judge_sound_core _ _ _ _ _ _ Hg Hwf Ha). Qed.
+
+Theorem judge_sound : forall server init evs streams parts,
+  C14_guard (KTrace server init evs streams parts) = true ->
+  trace_wf server init evs = true ->
+  agrees (KTrace server init evs streams parts) = true -> C14_ok (KTrace server init evs streams parts) = true.
+Proof. intros server init evs streams parts. exact (judge_sound_all (KTrace server init evs streams parts)). Qed.
+
+(* ---- the oracle equivalence only ever relates values that differ in float leaves ---- *)
+Lemma oracle_equiv_is_tolerance t a b :
+  oracle_equiv t (Some a) (Some b) = true -> strip_floats a = strip_floats b.
+Proof.
+  unfold oracle_equiv, tolerance_shaped. intros H. apply andb_prop in H. destruct H as [_ H].
+  apply value_eqb_eq. exact H.
 Qed.
